@@ -461,6 +461,73 @@ Proof.
   - eapply R; eauto.
 Qed.
 
+(* ---- from the pending Send itself: the rekey timer it arms, then the handshake ---- *)
+Lemma expire_meta ch : ch_remote (expire ch) = ch_remote ch /\ ch_key (expire ch) = ch_key ch /\ ch_rts (expire ch) = ch_rts ch.
+Proof.
+  destruct ch as [k s0 s1 s2 r rts lr]. unfold expire, expire2, expire1, expire0. cbn [ch_s0].
+  destruct s0 as [a|]; [destruct (expired a)|]; cbn [set_slot ch_s1 ch_key ch_s0 ch_s2 ch_remote ch_rts ch_lr];
+  (destruct s1 as [b|]; [destruct (expired b || _)|]); cbn [set_slot ch_s1 ch_key ch_s0 ch_s2 ch_remote ch_rts ch_lr];
+  (destruct s2 as [c|]; [destruct (expired c)|]); cbn; auto.
+Qed.
+
+Lemma rekey_meta fA rank ts A : ch_s2 (expire A) = None ->
+  ch_remote (fst (chan_rekey fA rank ts A)) = ch_remote A /\ ch_key (fst (chan_rekey fA rank ts A)) = ch_key A.
+Proof.
+  intros E. unfold chan_rekey. cbn [slot]. rewrite E. unfold chan_handshake. cbn [fst].
+  destruct (expire_meta (set_slot (expire A) 2 (Some (mkCS (new_sess true) fA None None rank ts 0)))) as [R [K _]].
+  destruct (expire_meta A) as [R0 [K0 _]]. rewrite R, K.
+  destruct (expire A); cbn in *. auto.
+Qed.
+
+(* A Send is pending on A (no current session survives the expiry step, no handshake
+   in progress): the rekey timer it arms creates the initiator session and emits an
+   InitHello; delivered to a peer with no handshake in progress, the handshake
+   completes, both sides are bound to each other and the data is handed up. *)
+Theorem pending_send_completes accept A B fA fB f1 f2 f3 f4 rank ts :
+  InvP accept A -> InvP accept B -> fresh_tag A fA -> ch_s2 (expire A) = None ->
+  bound_ok accept A (ch_key B) ->
+  ch_s2 B = None -> fresh_tag B fB -> orank_ne (ch_s0 B) rank -> orank_ne (ch_s1 B) rank ->
+  ts <? ch_rts B = false -> bound_ok accept B (ch_key A) ->
+  let A1 := fst (chan_rekey fA rank ts A) in
+  In (emit A1 (init0 fA rank ts) MIH) (snd (chan_rekey fA rank ts A)) /\
+  exists B1, chan_deliver accept fB B (emit A1 (init0 fA rank ts) MIH) =
+               Ok (B1, DSend (emit B1 (resp1 fB fA (ch_key A1) rank ts) MRH)) /\
+             established accept A1 B1 fA fB f1 f2 f3 f4 rank ts.
+Proof.
+  intros IA IB FA E BdA EB FB RB0 RB1 Hts BdB A1.
+  destruct (rekey_starts fA rank ts A E) as [S2 Hin]. destruct (rekey_meta fA rank ts A E) as [R K].
+  split; [exact Hin|]. apply establish_inv; auto.
+  - apply rekey_np; auto.
+  - unfold bound_ok in *. fold A1. unfold A1. rewrite R. exact BdA.
+  - unfold A1. rewrite K. exact BdB.
+Qed.
+
+(* ---- retransmission: every firing of the handshake timer re-sends the message the
+   prospective session is waiting to have answered, for as long as that session lives ---- *)
+Definition awaiting (se : csess) : Prop :=
+  (s_init (cs se) = true /\ (s_hs (cs se) = 0 \/ s_hs (cs se) = 2)) \/ (s_init (cs se) = false /\ s_hs (cs se) = 1).
+
+Theorem handshake_timer_retransmits accept ch se :
+  InvP accept ch -> ch_s2 ch = Some se -> expired se = false -> awaiting se ->
+  exists k, write_handshake (cs se) = Ok (Some k) /\
+            ch_s2 (fst (chan_handshake ch)) = Some se /\
+            In (emit (fst (chan_handshake ch)) se k) (snd (chan_handshake ch)).
+Proof.
+  intros [_ [[_ [_ C2]] _]] E2 Ex Aw. rewrite E2 in C2. cbn in C2. destruct C2 as (_ & C0 & C1 & C2' & _).
+  assert (W : exists k, write_handshake (cs se) = Ok (Some k)).
+  { unfold write_handshake. destruct Aw as [[Ei [E0|E2']]|[Ei E1]]; rewrite Ei.
+    - rewrite E0. cbn. rewrite (C0 Ei E0). eauto.
+    - rewrite E2'. cbn. rewrite (C2' Ei E2'). eauto.
+    - rewrite E1. cbn. rewrite (C1 Ei E1). eauto. }
+  destruct W as [k W]. exists k. split; [exact W|].
+  assert (NR : c_ready se = false).
+  { unfold c_ready, is_ready, can_send, can_receive. destruct Aw as [[Ei [E0|E2']]|[Ei E1]]; rewrite Ei, ?E0, ?E2', ?E1; reflexivity. }
+  unfold chan_handshake. cbn [fst snd]. pose proof (expire_s2 ch se E2 Ex) as S2. split; [exact S2|].
+  apply in_flat_map. exists (Some se). split.
+  - unfold ch_slots. rewrite S2. cbn. auto.
+  - rewrite NR, W. cbn. auto.
+Qed.
+
 (* the hypotheses are satisfiable by states that carry sessions from the past *)
 Example establish_not_vacuous :
   let old (t : N) (ini : bool) (k : N) := mkCS (with_hs (new_sess ini) 4 None 40) t (Some (t + 100)) (Some k) t 5 30 in
@@ -477,3 +544,5 @@ Qed.
 Print Assumptions establish.
 Print Assumptions establish_inv.
 Print Assumptions simultaneous_open_converges.
+Print Assumptions pending_send_completes.
+Print Assumptions handshake_timer_retransmits.
